@@ -38,6 +38,14 @@ CHECKS = {
         note="trusted: hook H2; the observation recorded at creation; FrozenModule/OwnedFrozen moved across threads through an unsafe Send wrapper in the harness",
         technique="conservation monitor over recorded histories + poisoned/quarantined arenas + ASan",
         ref="DESIGN.md section 3 C13"),
+    "C04": dict(
+        engine="svh",
+        text="For every generated library module: encoding, hash, str and repr of every export are recorded just before freeze and compared with the frozen module; 1-3 importing modules (plus an importer of a re-exporting importer) "
+             "run a generic walker over everything reachable from the loaded values and try the complete mutator catalogue on every container found - each attempt is validated by a control on an unfrozen shallow copy (must succeed and change it) "
+             "and must then fail on the frozen container and change nothing; non-mutating operations must give the same results as on the copy; finally every export is re-observed. Held on the libraries generated.",
+        note="trusted: the walker (lists, tuples, dict keys/values, struct/record fields, depth 4); the catalogue of mutating operations in the walker source; self-containing values are excluded from the frozen-vs-copy comparison of non-mutating operations",
+        technique="conservation monitor across freeze + fault-injection style mutation attempts with unfrozen controls",
+        ref="DESIGN.md section 3 C04"),
     "C09": dict(
         engine="svh",
         text="The algebraic laws themselves are the oracle: reflexivity, symmetry, transitivity (through equivalence classes, i.e. all triples), "
